@@ -3,7 +3,7 @@
 # (`swr`), and a model-independent oracle that states the two properties directly on the recorded run.
 import re
 
-AFTER_PREFIXES = ("sws ",)
+AFTER_PREFIXES = ("sws ", "srs ")
 
 
 def hexs(b):
@@ -90,11 +90,46 @@ def gen_sws(tier, rng):
             yield "sws %d %s" % (1 + rng.below(10 ** 9), body), dict(tags, exec="sws")
 
 
+def to_reader_ops(body, rng):
+    """turns a writer script into a reader script: a write of k bytes becomes a read with a buffer of 1..k+2 bytes, a
+    flush becomes a zero-length read"""
+    def conv(op):
+        if op[0] == "w":
+            i, d = op[1:].split(":")
+            return "r%s:%d" % (i, max(0, len(d) // 2 + rng.choice([-1, 0, 0, 1, 2])))
+        if op[0] == "f":
+            return "r%s:0" % op[1:]
+        return op
+    out = []
+    for x in body.split(" "):
+        if x.startswith("main=") or re.match(r"t\d+=", x):
+            k, v = x.split("=", 1)
+            out.append(k + "=" + ",".join(conv(o) if o and o[0] in "wfd" else o for o in v.split(",")))
+        else:
+            out.append(x)
+    return " ".join(out)
+
+
+def gen_srs(tier, rng):
+    """the reader chain (SequentialReader): the same script shapes, reads instead of writes, over a source of 0..40 bytes"""
+    nscripts = 100 if tier == "quick" else 2000
+    nseeds = 3 if tier == "quick" else 8
+    for idx in range(nscripts):
+        live = not rng.chance(1, 4)
+        body, tags = gen_script(rng, idx, live)
+        body = to_reader_ops(body, rng)
+        n = rng.choice([0, 3, 10, 25, 40])
+        src = bytes([(7 * k + idx) % 251 for k in range(n)]).hex() or "-"
+        body = body.replace("live=", "src=%s live=" % src, 1)
+        for s in range(nseeds):
+            yield "srs %d %s" % (1 + rng.below(10 ** 9), body), dict(tags, exec="srs")
+
+
 def parse(obs):
-    m = re.match(r"labels=(\S+) stream=(\S+) done=(\S+) pend=(\S+) dead=(\d)", obs)
+    m = re.match(r"labels=(\S+) stream=(\S+) done=(\S+) pend=(\S+) dead=(\d)(?: got=(\S+))?", obs)
     if not m:
         return None
-    return {"labels": [] if m.group(1) == "-" else m.group(1).split(";"),
+    return {"got": {} if not m.group(6) or m.group(6) == "-" else dict((int(x.split(":")[0]), x.split(":")[1]) for x in m.group(6).split(",")),"labels": [] if m.group(1) == "-" else m.group(1).split(";"),
             "stream": "" if m.group(2) == "-" else m.group(2),
             "done": dict((x.split(":")[0], int(x.split(":")[1])) for x in m.group(3).split(",")),
             "pend": [] if m.group(4) == "-" else [tuple(x.split("/", 1)) for x in m.group(4).split(",")],
@@ -107,13 +142,20 @@ def model_line_after(case, obs):
         return "#"
     m = o["raw"]
     sc = scripts(case)
+    rd = case.startswith("srs ")
+    if rd:
+        # a read is the model's Write with the bytes it obtained; enabledness does not depend on the data
+        sc = dict((k, [re.sub(r"^r(\d+):\d+$", r"w\1:", op) for op in v]) for k, v in sc.items())
     nw = sum(1 for x in case.split(" ") if x.startswith("main=") for y in x[5:].split(",") if y == "N")
     progs = [",".join(sc.get("m", []))] + [",".join(sc[k]) for k in sorted((k for k in sc if k != "m"), key=lambda z: int(z[1:]))]
     mainops = [y for x in case.split(" ") if x.startswith("main=") for y in x[5:].split(",") if y]
     last_s = max([i for i, y in enumerate(mainops) if y[0] == "S"] + [-1])
-    first_own = min([i for i, y in enumerate(mainops) if y[0] in "wfd"] + [len(mainops)])
+    first_own = min([i for i, y in enumerate(mainops) if y[0] in "wfdr"] + [len(mainops)])
     late = "1" if first_own > last_s else "0"
-    return "swr %s %s %s %s %d|%s %s" % (m.group(1), m.group(2), m.group(4), "1" if " live=1" in case else "0", nw, "|".join(progs), late)
+    pend = m.group(4)
+    if rd and pend != "-":
+        pend = ",".join(re.sub(r"/r(\d+):\d+$", r"/w\1:", x) for x in pend.split(","))
+    return "swr %s %s %s %s %d|%s %s" % (m.group(1), m.group(2), pend, "1" if " live=1" in case else "0", nw, "|".join(progs), late)
 
 
 def agree_after(im, mo):
@@ -124,7 +166,7 @@ def scripts(case):
     out = {}
     for x in case.split(" ")[2:]:
         if x.startswith("main="):
-            out["m"] = [o for o in x[5:].split(",") if o and o[0] in "wfd"]
+            out["m"] = [o for o in x[5:].split(",") if o and o[0] in "wfdr"]
         elif re.match(r"t\d+=", x):
             nm, ops = x.split("=", 1)
             out[nm] = [o for o in ops.split(",") if o]
@@ -143,7 +185,7 @@ def oracle(case, obs):
     owner = {}
     for nm, ops in sc.items():
         for op in ops:
-            owner[int(re.match(r"[wfd](\d+)", op).group(1))] = nm
+            owner[int(re.match(r"[wfdr](\d+)", op).group(1))] = nm
     # (3)
     per = {nm: [] for nm in sc}
     dropped = set()
@@ -162,8 +204,22 @@ def oracle(case, obs):
                 return "FAIL writer %d released its successor twice" % i
             dropped.add(i)
         per[owner[i]].append(l[0].lower() + l[1:])
+    rd = case.startswith("srs ")
     for nm, ops in sc.items():
         dn = o["done"].get(nm, 0)
+        if rd:
+            # a read leaves the mark of what the source handed out: same reader, at most the buffer's size
+            exp, seen = ops[:dn], per[nm]
+            ok = len(exp) == len(seen)
+            for a, b in zip(exp, seen):
+                if a[0] == "r":
+                    i, n = a[1:].split(":")
+                    ok = ok and b.startswith("w%s:" % i) and len(b.split(":")[1]) // 2 <= int(n)
+                else:
+                    ok = ok and a == b
+            if not ok:
+                return "FAIL %s completed %s but the marks are %s" % (nm, ",".join(exp) or "-", ",".join(seen) or "-")
+            continue
         if per[nm] != ops[:dn]:
             return "FAIL %s completed %s but its marks are %s" % (nm, ",".join(ops[:dn]) or "-", ",".join(per[nm]) or "-")
     # (1)
@@ -175,6 +231,12 @@ def oracle(case, obs):
     expect = "".join("".join(want[i]) for i in sorted(want))
     if o["stream"] != expect:
         return "FAIL the sink holds %s; writer after writer the completed writes are %s" % (o["stream"] or "-", expect or "-")
+    if rd:
+        src = re.search(r" src=(\S+)", case).group(1)
+        src = "" if src == "-" else src
+        mine = "".join(o["got"][i] for i in sorted(o["got"]))
+        if mine != o["stream"] or not src.startswith(mine):
+            return "FAIL reader after reader the calls obtained %s; the source handed out %s of %s" % (mine or "-", o["stream"] or "-", src or "-")
     # (4)
     if " live=1" in case:
         if o["dead"] or o["pend"]:
